@@ -55,48 +55,51 @@ def _normalise(run, prog):
     if names and names[0] in ("self", "cls"):
         names = names[1:]
     vals, mode = ("param", names[0]), ("param", names[1])
-    rets = [(ev, ctx) for ev, ctx in walk(s.events) if isinstance(ev, (ir.Return, ir.Raise)) and not ctx.inl]
+    from .common import return_cases
     seen = set()
-    for ev, ctx in rets:
-        g = ctx.guards
-        gtxt = " & ".join(ir.show_nl(x) for x in g) or "always"
-        m = _mode_of(g, mode)
+    # unknown modes must raise (the raise may sit in an inlined helper)
+    for ev, ctx in walk(s.events):
         if isinstance(ev, ir.Raise):
-            run.check(m == "other", "FORMULA", "norm.unknown-mode", f"{s.path}:{ev.line}", fq, f"raise under [{gtxt}]",
+            m = _mode_of(ctx.guards, mode)
+            handler = [h for t, h in ctx.tries if h != "body"]
+            if handler:
+                continue
+            run.check(m == "other", "FORMULA", "norm.unknown-mode", f"{s.path}:{ev.line}", fq,
+                      f"raise under [{' & '.join(ir.show_nl(x) for x in ctx.guards)}]",
                       f"an exception is raised for mode {m}", "unknown mode raises")
             seen.add("raise")
-            continue
-        v = ev.value
+    for g, v, line, ctx in return_cases(s):
+        gtxt = " & ".join(ir.show_nl(x) for x in g) or "always"
+        m = _mode_of(g, mode)
         if m == "other" or m is None:
-            run.fail("FORMULA", "norm.unknown-mode", f"{s.path}:{ev.line}", fq, f"return under [{gtxt}]",
+            run.fail("FORMULA", "norm.unknown-mode", f"{s.path}:{line}", fq, f"return under [{gtxt}]",
                      f"a result is returned for an unknown normalisation mode ([{gtxt}])")
             continue
         in_handler = [h for t, h in ctx.tries if h != "body"]
         in_try = [t for t, h in ctx.tries if h == "body"]
+        fac = _factor_terms(s, vals, m)
         if v[0] == "comp" and v[1] == "dict" and const_value(v[5]) == 0:
-            fac = _factor_terms(s, vals, m)
             zt = any(zero_test(x, fac) for x in g)
             if in_handler and not zt:
-                run.fail("ZERODIV", f"norm.zero.{m}", f"{s.path}:{ev.line}", fq,
+                run.fail("ZERODIV", f"norm.zero.{m}", f"{s.path}:{line}", fq,
                          f"zero fallback in `except {'/'.join(in_handler[0].exc)}`",
                          "the all-0.0 fallback is reached only through `except ZeroDivisionError`; NumPy scalar values "
                          "(np.float64 importances) divide to inf/nan without raising")
             else:
-                run.check(zt, "ZERODIV", f"norm.zero.{m}", f"{s.path}:{ev.line}", fq, f"zero fallback under [{gtxt}]",
+                run.check(zt, "ZERODIV", f"norm.zero.{m}", f"{s.path}:{line}", fq, f"zero fallback under [{gtxt}]",
                           f"the all-0.0 result must be selected by an explicit `factor == 0` test; found [{gtxt}]",
                           f"{m}: factor == 0 selects all 0.0")
             keys_ok = (v[3][0] == "res" and v[3][2] in (".items", ".keys") and v[3][3][0] == vals) or v[3] == vals
-            run.check(keys_ok, "FORMULA", f"norm.zero-keys.{m}", f"{s.path}:{ev.line}", fq, f"zero keys {ir.show_nl(v[3])}",
+            run.check(keys_ok, "FORMULA", f"norm.zero-keys.{m}", f"{s.path}:{line}", fq, f"zero keys {ir.show_nl(v[3])}",
                       "the all-zero result must cover every feature", "zeros for every key")
             seen.add(("zero", m))
             continue
         if v[0] == "comp" and v[1] == "dict" and v[5][0] == "op" and v[5][1] == "/":
             num, den = v[5][2], v[5][3]
-            fac = _factor_terms(s, vals, m)
             over_items = v[3][0] == "res" and v[3][2] == ".items" and v[3][3][0] == vals
             shape = (over_items and v[4] == ("tget", ("elem", v[2]), 0) and num == ("tget", ("elem", v[2]), 1)) or \
                     (v[3] == vals and v[4] == ("elem", v[2]) and num == ("sub", vals, ("elem", v[2])))
-            run.check(shape and den in fac, "FORMULA", f"norm.ratio.{m}", f"{s.path}:{ev.line}", fq,
+            run.check(shape and den in fac, "FORMULA", f"norm.ratio.{m}", f"{s.path}:{line}", fq,
                       f"{m}: {ir.show_nl(v[5])}",
                       f"in mode '{m}' every value must be divided by " +
                       ("sum(values)" if m == "sum" else "max(values) - min(values)") + f"; found {ir.show_nl(v[5])}",
@@ -106,12 +109,12 @@ def _normalise(run, prog):
                 run.ok("ZERODIV", f"norm.div.{m}", "division dominated by an explicit factor != 0 test")
             else:
                 how = "guarded only by `except ZeroDivisionError`" if in_try else "unguarded"
-                run.fail("ZERODIV", f"norm.div.{m}", f"{s.path}:{ev.line}", fq, f"division {how}",
+                run.fail("ZERODIV", f"norm.div.{m}", f"{s.path}:{line}", fq, f"division {how}",
                          f"the division by the normaliser is {how}: for NumPy scalars a zero normaliser yields inf/nan "
                          f"instead of all 0.0")
             seen.add(("ratio", m))
             continue
-        run.fail("FORMULA", f"norm.shape.{m}", f"{s.path}:{ev.line}", fq, f"returns {ir.show_nl(v)[:120]}",
+        run.fail("FORMULA", f"norm.shape.{m}", f"{s.path}:{line}", fq, f"returns {ir.show_nl(v)[:120]}",
                  f"unexpected result shape in mode {m}: {ir.show_nl(v)[:200]}")
     need = {"raise", ("zero", "sum"), ("zero", "delta"), ("ratio", "sum"), ("ratio", "delta")}
     missing = need - seen
@@ -260,14 +263,18 @@ def _bound(run, prog):
             ok = True
     run.check(ok, "BOUND", "delta-range", f"{s.path}:{s.fn.lineno}", fq, "delta range check",
               "no unconditional check 0 < delta <= 1", "assert 0 < delta <= 1")
+    from .common import dict_build
     r = s.ret
-    if not (r[0] == "comp" and r[1] == "dict" and r[3] == ("field0", "feature_names") and r[4] == ("elem", r[2])
-            and not r[6]):
+    db = dict_build(r, s.events)
+    ok_keys = db is not None and len(db.entries) == 1 and db.over == ("field0", "feature_names") and \
+        db.entries[0][0] == ("elem", db.lid) and not db.init_items and not (db.kind == "comp" and r[6]) and \
+        not (db.entries[0][2] is not None and db.entries[0][2].guards)
+    if not ok_keys:
         run.fail("BOUND", "keys", f"{s.path}:{s.fn.lineno}", fq, f"result {ir.show_nl(r)[:120]}",
                  "the bound must be reported for exactly the explained feature names")
         return
-    val = r[5]
-    elem = ("elem", r[2])
+    val = db.entries[0][1]
+    elem = ("elem", db.lid)
     vs = prog.summarise(cls, "variances").ret
     var_terms = [t for t in ir.subterms(val) if t[0] == "sub" and t[2] == elem and t[1][0] == "res" and
                  t[1][2].endswith(".get") and "varia" in t[1][2]]
